@@ -431,15 +431,17 @@ type gInfo struct {
 	text     string
 }
 
+var dumpBuf = make([]byte, 1<<18)
+
 func dumpGoroutines() map[int64]*gInfo {
-	buf := make([]byte, 1<<20)
+	var buf []byte
 	for {
-		n := runtime.Stack(buf, true)
-		if n < len(buf) {
-			buf = buf[:n]
+		n := runtime.Stack(dumpBuf, true)
+		if n < len(dumpBuf) {
+			buf = dumpBuf[:n]
 			break
 		}
-		buf = make([]byte, 2*len(buf))
+		dumpBuf = make([]byte, 2*len(dumpBuf))
 	}
 	out := map[int64]*gInfo{}
 	for _, g := range strings.Split(string(buf), "\n\n") {
@@ -548,6 +550,7 @@ func (w *world) settle() map[string]string {
 	var last string
 	stable := 0
 	var awaitSince time.Time
+	pause := 150 * time.Microsecond
 	for {
 		pos, quiet := w.positions()
 		if quiet {
@@ -590,7 +593,10 @@ func (w *world) settle() map[string]string {
 			w.hung = true
 			return pos
 		}
-		time.Sleep(300 * time.Microsecond)
+		time.Sleep(pause)
+		if pause < 3*time.Millisecond {
+			pause = pause * 3 / 2
+		}
 	}
 }
 
